@@ -240,12 +240,12 @@ Loop:
 			continue
 		}
 
-		// the queued messages have been sent to redis in bulk,
-		// and the messages are finally assembled and sent to
-		// the client when and only when all the messages have been processed
-
-		// Whether all inMsgQueue messages have been processed
-		if !c.inMsgQueue.AllDone() {
+		// replies go back in request order: the completed messages at the head of
+		// the queue are sent now, the ones behind the first message that is still
+		// being processed wait for it. Messages the client sent later must not hold
+		// back the replies that are ready, otherwise a client that always has a
+		// request outstanding never receives anything.
+		if !c.inMsgQueue.head.Done {
 			continue
 		}
 
@@ -256,12 +256,13 @@ Loop:
 		var curId uint64
 		var curFd = c.fd
 
-		for cur != nil {
+		for cur != nil && cur.Done {
 			curId = cur.Id
 			bs = append(bs, cur.RspBody)
 			logging.Debugfunc(func() string { return fmt.Sprintf("[%dm][%dc] got res: %s", cur.Id, c.Fd(), cur.RspBodyString()) })
 			cur = cur.prev
 		}
+		doneCount := len(bs)
 
 		for len(bs) > 0 {
 			var r = len(bs)
@@ -290,8 +291,8 @@ Loop:
 			continue
 		}
 
-		// release Msg
-		for {
+		// release the Msg that have been replied
+		for ; doneCount > 0; doneCount-- {
 			msg := c.dequeueInMsg()
 			if msg == nil {
 				break
